@@ -3,7 +3,7 @@
 # quick check, undo it.  Expected: OK or UNDECIDED; a VIOLATION is a false alarm of the machinery.
 base=${1:-/verif/benign}; out=${2:-/verif/gen/benall.txt}; : > $out
 for d in $base/*/; do
-  pid=$(basename $d)
+  pid=$(basename $d); pid=${pid%%_*}
   for f in $d/benign_*.diff; do
     [ -f "$f" ] || continue
     git -C /repo apply $f || { echo "$pid $(basename $f): patch does not apply" >> $out; continue; }
